@@ -631,15 +631,21 @@ class BaseTrigger(ABC):
                 continue
             for vc_id in context.valid_conditions.keys():
                 condition_to_pending_triggers[vc_id].discard(trigger.trigger_id)
-            trigger_run_ids = trigger.generate_trigger_run_ids(context)
-            for run_id in trigger_run_ids:
-                if self.claim_trigger_run(run_id):
-                    args = trigger.get_arguments(context)
-                    self.execute_task(trigger.task_id, args)
-                    # For OR logic, continue processing other run IDs
-                    # For AND logic, only one run ID is generated, so this has no effect
-                    if trigger.logic == CompositeLogic.AND:
-                        break
+            if trigger.logic == CompositeLogic.AND:
+                run_contexts = [context]
+            else:
+                # OR logic: every valid condition is an occurrence of its own, so its
+                # run id and its arguments must come from that occurrence alone
+                run_contexts = [
+                    TriggerContext(valid_conditions={vc_id: valid_condition})
+                    for vc_id, valid_condition in context.valid_conditions.items()
+                    if valid_condition.condition.condition_id in trigger.condition_ids
+                ]
+            for run_context in run_contexts:
+                for run_id in trigger.generate_trigger_run_ids(run_context):
+                    if self.claim_trigger_run(run_id):
+                        args = trigger.get_arguments(run_context)
+                        self.execute_task(trigger.task_id, args)
         # Clean up the valid conditions that are no longer needed
         # Because all the triggers that required already ran
         conditions_to_clean = [
